@@ -168,7 +168,11 @@ def check_signal(ctx: Ctx):
                     for h in parent.handlers:
                         if h.type is not None and U(h.type) in ("_SpanningDropletSignal", "RuntimeError", "Exception", "BaseException"):
                             caught = True
-            own_shape = len(c.args) == 2 and U(c.args[1]) in (f"{fi.params[0]}.data", "mask.data") and U(c.args[0]).endswith("grid")
+            from ..astutil import call_bindings as _cb
+
+            binds, unres = _cb(fv, c, helper)
+            vals = sorted(U(v) for v in binds.values())
+            own_shape = not unres and len(vals) == 2 and any(v in (f"{fi.params[0]}.data", "mask.data") for v in vals) and any(v.endswith("grid") for v in vals)
             ctx.decide(caught or (own_shape and cond_ok), "SIGNAL", tag, (fi, c),
                        "signal caught by the caller" if caught else "called with the grid's own image: the signal cannot be raised",
                        f"`{U(c)[:70]}` can raise the internal _SpanningDropletSignal, which is not caught here")
